@@ -144,13 +144,41 @@ def flatten(circuit: Circuit, loc=None):
     return out
 
 
+def gate_tag(g) -> str:
+    """repr(gate) plus what repr omits: the target of a multiplexed rotation
+    (repr(MPRYGate(3, 0)) == repr(MPRYGate(3, 1))), the control levels of a
+    ControlledGate."""
+    s = repr(g)
+    t = getattr(g, 'target_qubit', None)
+    if t is not None:
+        s += f'[t={t}]'
+    cl = getattr(g, 'control_levels', None)
+    if cl is not None:
+        s += '[ctrl=' + ','.join('/'.join(map(str, lv)) for lv in cl) + ']'
+    return s
+
+
 def op_key(g, params, digits=9):
-    return (repr(g), type(g).__name__, tuple(g.radixes),
+    return (gate_tag(g), type(g).__name__, tuple(g.radixes),
             tuple(round(float(x), digits) for x in params))
 
 
 def struct_key(circuit: Circuit):
-    return [(repr(op.gate), tuple(op.location)) for op in circuit]
+    return [(gate_tag(op.gate), tuple(op.location)) for op in circuit]
+
+
+def circ_desc(c: Circuit) -> dict:
+    """JSON description for replays. A CircuitGate operation carries the
+    description of its inner circuit (with the parameters FROZEN inside it;
+    they may differ from the operation's own parameters)."""
+    ops = []
+    for op in c:
+        o = [gate_tag(op.gate), list(op.location),
+             [float(x) for x in op.params]]
+        if isinstance(op.gate, CircuitGate):
+            o.append({'inner': circ_desc(op.gate._circuit)})
+        ops.append(o)
+    return {'radixes': list(c.radixes), 'ops': ops}
 
 
 def is_subsequence(small, big) -> bool:
